@@ -136,6 +136,37 @@ def run(ctx):
     st = [i for (b, i) in env_setters(prog, "REDO_BASE") if b.key == ei.key]
     ok = bool(st)
     ctx.ob("R15.6", "Env::init|exports-REDO_BASE", ok, where=ctx.where(ei, st[0]) if st else ei.span, detail="Env::init sets REDO_BASE for its children" if ok else "the discovered base is not exported: children may compute a different base")
+    cp = eba.calls(r"common_path::common_path_all")
+    cd = eba.calls(r"std::env::current_dir")
+    ok = False
+    if cp and cd:
+        # the iterator handed to common_path_all is built from the target directories *chained with* the cwd itself
+        cwd_direct = taint(ei, seeds={ei.blocks[cd[0]]["term"]["dest"]["l"]}, mode="direct", through=re.compile(r"core::iter::sources::once::once|core::convert::AsRef::as_ref"))
+        seen_calls = set()
+        todo = [op_local(ei.blocks[cp[0]]["term"]["args"][0])]
+        while todo:
+            l = todo.pop()
+            if l is None:
+                continue
+            sl, org, _ = backward_direct(ei, l, depth=60)
+            for o in org:
+                if o[0] != "call" or o[1] in seen_calls:
+                    continue
+                seen_calls.add(o[1])
+                if call_matches(o[2], r"core::iter::sources::once::once"):
+                    a0 = op_local(o[2]["args"][0])
+                    if a0 in cwd_direct or any(x in cwd_direct for x in eba.ref_chain(a0)):
+                        ok = True
+                if call_matches(o[2], r"core::iter::traits::iterator::Iterator::(chain|map|cloned|copied)"):
+                    todo.extend(op_local(a) for a in o[2]["args"])
+        # alternative idiom: the cwd itself is pushed into the collection of directories
+        for i in eba.calls(r"alloc::vec::Vec::push"):
+            a1 = op_local(ei.blocks[i]["term"]["args"][1])
+            if a1 is not None and (a1 in cwd_direct or any(x in cwd_direct for x in eba.ref_chain(a1))) and eba.path([i], cp):
+                ok = True
+    ctx.ob("R15.6", "Env::init|base-covers-cwd-and-targets", ok, where=ctx.where(ei, cp[0]) if cp else ei.span,
+           detail="the common prefix is taken over the target directories *and* the current directory" if ok else
+           "the base is computed from the target directories only: a command naming just a sub-directory target creates a second .redo below the project top (two records, two locks for one file)")
     if st:
         v = op_local(ei.blocks[st[0]]["term"]["args"][1])
         sl, org, _ = backward_direct(ei, v, depth=150)
